@@ -37,6 +37,8 @@ type Exec struct {
 	Fault     string           `json:"fault,omitempty"`
 	Stuck     bool             `json:"stuck,omitempty"`
 	SetupLen  int              `json:"setup_len"`
+	SetupChoices []engx.Choice  `json:"-"`
+	MainChoices  []engx.Choice  `json:"-"`
 }
 
 func send(amount int, src, dst string) string {
@@ -46,6 +48,7 @@ func send(amount int, src, dst string) string {
 // run executes the scenario following the schedule prefix (then always choice 0).
 func run(sc Scenario, prefix []int, keepTrace bool) Exec {
 	disk := &engx.Disk{}
+	var setupChoices []engx.Choice
 	// setup: sequential, uncontrolled interleaving is impossible with one thread at a time
 	if len(sc.Setup) > 0 {
 		s := engx.New(disk, sc.Setup)
@@ -65,11 +68,12 @@ func run(sc Scenario, prefix []int, keepTrace bool) Exec {
 					break
 				}
 			}
+			setupChoices = append(setupChoices, pick)
 			s.Do(pick)
 		}
 		s.Close()
 	}
-	ex := Exec{SetupLen: len(disk.Logs)}
+	ex := Exec{SetupLen: len(disk.Logs), SetupChoices: setupChoices}
 	s := engx.New(disk, sc.Reqs)
 	s.AllowFail, s.AllowCrash = sc.Fail, sc.Crash
 	step := 0
@@ -88,6 +92,7 @@ func run(sc Scenario, prefix []int, keepTrace bool) Exec {
 		ex.Schedule = append(ex.Schedule, k)
 		ex.Counts = append(ex.Counts, len(en))
 		ex.Choices = append(ex.Choices, en[k].String())
+		ex.MainChoices = append(ex.MainChoices, en[k])
 		s.Do(en[k])
 		step++
 		if step > 400 {
@@ -416,44 +421,194 @@ func scriptUnbounded(sc Scenario) map[string]bool {
 // ---- scenarios ----------------------------------------------------------------------------------------------
 
 func fund(acc string, amt int) engx.Req {
-	return engx.Req{Kind: "create", Script: send(amt, "@world", "@"+acc)}
+	return engx.Req{Kind: "create", Script: send(amt, "@world", "@"+acc), ModelPostings: []engx.PostingReq{{Source: "world", Destination: acc, Asset: "USD", Amount: int64(amt)}}}
 }
+
+// xfer: a one-posting script request together with its meaning for the model
+func xfer(amt int, src, dst string) engx.Req {
+	return engx.Req{Kind: "create", Script: send(amt, "@"+src, "@"+dst), ModelPostings: []engx.PostingReq{{Source: src, Destination: dst, Asset: "USD", Amount: int64(amt)}}}
+}
+func with(r engx.Req, f func(*engx.Req)) engx.Req { f(&r); return r }
 
 func scenarios() []Scenario {
 	meta := engx.Req{Kind: "savemeta", Target: "ACCOUNT", TargetID: "cfg", Meta: map[string]string{"src": "alice"}}
-	viaMeta := "vars {\n  account $x = meta(@cfg, \"src\")\n}\n" + send(100, "$x", "@bob")
-	viaVar := "vars {\n  account $x\n}\n" + send(100, "$x", "@bob")
+	viaMeta := with(xfer(100, "alice", "bob"), func(r *engx.Req) {
+		r.Script = "vars {\n  account $x = meta(@cfg, \"src\")\n}\n" + send(100, "$x", "@bob")
+	})
+	viaVar := with(xfer(100, "alice", "bob"), func(r *engx.Req) {
+		r.Script = "vars {\n  account $x\n}\n" + send(100, "$x", "@bob")
+		r.Vars = map[string]string{"x": "alice"}
+	})
+	ref := func(r engx.Req, x string) engx.Req { r.Reference = x; return r }
+	ik := func(r engx.Req, x string) engx.Req { r.IK = x; return r }
+	dry := func(r engx.Req) engx.Req { r.DryRun = true; return r }
+	metaA := engx.Req{Kind: "savemeta", Target: "ACCOUNT", TargetID: "alice", Meta: map[string]string{"a": "1"}}
 	return []Scenario{
-		{Name: "double-spend-literal", Setup: []engx.Req{fund("alice", 100)}, Reqs: []engx.Req{
-			{Kind: "create", Script: send(100, "@alice", "@bob")}, {Kind: "create", Script: send(100, "@alice", "@carol")}}},
-		{Name: "double-spend-variable", Setup: []engx.Req{fund("alice", 100)}, Reqs: []engx.Req{
-			{Kind: "create", Script: viaVar, Vars: map[string]string{"x": "alice"}}, {Kind: "create", Script: send(100, "@alice", "@carol")}}},
-		{Name: "double-spend-metadata", Setup: []engx.Req{fund("alice", 100), meta}, Reqs: []engx.Req{
-			{Kind: "create", Script: viaMeta}, {Kind: "create", Script: send(100, "@alice", "@carol")}}},
-		{Name: "same-reference", Setup: []engx.Req{fund("alice", 300)}, Reqs: []engx.Req{
-			{Kind: "create", Script: send(10, "@alice", "@bob"), Reference: "ref1"}, {Kind: "create", Script: send(20, "@alice", "@carol"), Reference: "ref1"}}},
-		{Name: "same-ik-create", Setup: []engx.Req{fund("alice", 300)}, Reqs: []engx.Req{
-			{Kind: "create", Script: send(10, "@alice", "@bob"), IK: "k1"}, {Kind: "create", Script: send(10, "@alice", "@bob"), IK: "k1"}}},
-		{Name: "same-ik-savemeta", Reqs: []engx.Req{
-			{Kind: "savemeta", Target: "ACCOUNT", TargetID: "alice", Meta: map[string]string{"a": "1"}, IK: "k2"},
-			{Kind: "savemeta", Target: "ACCOUNT", TargetID: "alice", Meta: map[string]string{"a": "1"}, IK: "k2"}}},
-		{Name: "racing-reverts", Setup: []engx.Req{fund("alice", 100), {Kind: "create", Script: send(40, "@alice", "@bob")}}, Reqs: []engx.Req{
+		{Name: "double-spend-literal", Setup: []engx.Req{fund("alice", 100)}, Reqs: []engx.Req{xfer(100, "alice", "bob"), xfer(100, "alice", "carol")}},
+		{Name: "double-spend-variable", Setup: []engx.Req{fund("alice", 100)}, Reqs: []engx.Req{viaVar, xfer(100, "alice", "carol")}},
+		{Name: "double-spend-metadata", Setup: []engx.Req{fund("alice", 100), meta}, Reqs: []engx.Req{viaMeta, xfer(100, "alice", "carol")}},
+		{Name: "chain-spend", Setup: []engx.Req{fund("alice", 100)}, Reqs: []engx.Req{xfer(60, "alice", "bob"), xfer(50, "bob", "carol"), xfer(60, "alice", "carol")}, Budget: 300},
+		{Name: "same-reference", Setup: []engx.Req{fund("alice", 300)}, Reqs: []engx.Req{ref(xfer(10, "alice", "bob"), "ref1"), ref(xfer(20, "alice", "carol"), "ref1")}},
+		{Name: "same-reference-loser-fails", Setup: []engx.Req{fund("alice", 5)}, Reqs: []engx.Req{ref(xfer(10, "alice", "bob"), "ref1"), ref(xfer(1, "alice", "carol"), "ref1")}},
+		{Name: "same-ik-create", Setup: []engx.Req{fund("alice", 300)}, Reqs: []engx.Req{ik(xfer(10, "alice", "bob"), "k1"), ik(xfer(10, "alice", "bob"), "k1")}},
+		{Name: "same-ik-savemeta", Reqs: []engx.Req{ik(metaA, "k2"), ik(metaA, "k2")}},
+		{Name: "same-ik-delmeta", Setup: []engx.Req{metaA}, Reqs: []engx.Req{
+			{Kind: "delmeta", Target: "ACCOUNT", TargetID: "alice", Key: "a", IK: "k4"}, {Kind: "delmeta", Target: "ACCOUNT", TargetID: "alice", Key: "a", IK: "k4"}}},
+		{Name: "racing-reverts", Setup: []engx.Req{fund("alice", 100), xfer(40, "alice", "bob")}, Reqs: []engx.Req{
 			{Kind: "revert", RevertID: 1}, {Kind: "revert", RevertID: 1}}},
-		{Name: "revert-event", Setup: []engx.Req{fund("alice", 100), {Kind: "create", Script: send(40, "@alice", "@bob")}}, Reqs: []engx.Req{
-			{Kind: "revert", RevertID: 1, Force: true}}},
-		{Name: "preview-then-real", Setup: []engx.Req{fund("alice", 100)}, Reqs: []engx.Req{
-			{Kind: "create", Script: send(10, "@alice", "@bob"), DryRun: true}, {Kind: "create", Script: send(10, "@alice", "@bob")}}},
+		{Name: "revert-vs-spend", Setup: []engx.Req{fund("alice", 100), xfer(40, "alice", "bob")}, Reqs: []engx.Req{
+			{Kind: "revert", RevertID: 1}, xfer(40, "bob", "carol")}},
+		{Name: "revert-forced", Setup: []engx.Req{fund("alice", 100), xfer(40, "alice", "bob"), xfer(40, "bob", "carol")}, Reqs: []engx.Req{
+			{Kind: "revert", RevertID: 1, Force: true}, ik(engx.Req{Kind: "revert", RevertID: 2}, "k5")}},
+		{Name: "preview-then-real", Setup: []engx.Req{fund("alice", 100)}, Reqs: []engx.Req{dry(xfer(10, "alice", "bob")), xfer(10, "alice", "bob")}},
+		{Name: "preview-kinds", Setup: []engx.Req{fund("alice", 100), xfer(5, "alice", "bob")}, Reqs: []engx.Req{
+			dry(engx.Req{Kind: "revert", RevertID: 1}), dry(metaA), xfer(1, "alice", "bob")}, Budget: 300},
 		{Name: "two-writers-chain", Setup: []engx.Req{fund("alice", 100), fund("bob", 100)}, Reqs: []engx.Req{
-			{Kind: "create", Script: send(1, "@alice", "@carol")}, {Kind: "create", Script: send(1, "@bob", "@carol")},
-			{Kind: "savemeta", Target: "ACCOUNT", TargetID: "alice", Meta: map[string]string{"a": "1"}}}},
+			xfer(1, "alice", "carol"), xfer(1, "bob", "carol"), metaA}},
+		{Name: "meta-on-transaction", Setup: []engx.Req{fund("alice", 100)}, Reqs: []engx.Req{
+			{Kind: "savemeta", Target: "TRANSACTION", TargetID: "0", Meta: map[string]string{"a": "1"}},
+			{Kind: "savemeta", Target: "TRANSACTION", TargetID: "7", Meta: map[string]string{"a": "1"}}}},
 		{Name: "crash-points", Setup: []engx.Req{fund("alice", 100)}, Crash: true, Fail: true, Reqs: []engx.Req{
-			{Kind: "create", Script: send(10, "@alice", "@bob"), IK: "k3"}, {Kind: "create", Script: send(10, "@alice", "@bob"), IK: "k3"},
+			ik(xfer(10, "alice", "bob"), "k3"), ik(xfer(10, "alice", "bob"), "k3"),
 			{Kind: "delmeta", Target: "ACCOUNT", TargetID: "alice", Key: "a"}}},
+		{Name: "crash-retry-reference", Setup: []engx.Req{fund("alice", 100)}, Crash: true, Reqs: []engx.Req{
+			ref(xfer(10, "alice", "bob"), "r9"), ref(xfer(10, "alice", "bob"), "r9")}},
 	}
+}
+
+// ---- Coq rendering of one execution -----------------------------------------------------------------------
+
+type names struct{ acc, ik, ref map[string]int }
+
+func newNames() *names {
+	return &names{acc: map[string]int{"world": 0}, ik: map[string]int{"": 0}, ref: map[string]int{"": 0}}
+}
+func idx(m map[string]int, k string) int {
+	if v, ok := m[k]; ok {
+		return v
+	}
+	m[k] = len(m)
+	return m[k]
+}
+func (n *names) postings(ps []engx.PostingReq) string {
+	var xs []string
+	for _, p := range ps {
+		xs = append(xs, fmt.Sprintf("(%d%%N, %d%%N, %d%%Z)", idx(n.acc, p.Source), idx(n.acc, p.Destination), p.Amount))
+	}
+	return "[" + strings.Join(xs, "; ") + "]"
+}
+func (n *names) request(r engx.Req) string {
+	kind := map[string]string{"create": "KCreate", "revert": "KRevert", "savemeta": "KSaveMeta", "delmeta": "KDelMeta"}[r.Kind]
+	ps := r.ModelPostings
+	if len(ps) == 0 {
+		ps = r.Postings
+	}
+	target := "None"
+	if r.Target == ledger.MetaTargetTypeTransaction {
+		target = "(Some " + r.TargetID + ")"
+	}
+	unb := r.Unb
+	if r.Kind == "revert" {
+		unb = r.Force
+	}
+	return fmt.Sprintf("{| rq_kind := %s; rq_ik := %d%%N; rq_ref := %d%%N; rq_dry := %v; rq_postings := %s; rq_unb := %v; rq_revert := %d; rq_target_tx := %s |}",
+		kind, idx(n.ik, r.IK), idx(n.ref, r.Reference), r.DryRun, n.postings(ps), unb, r.RevertID, target)
+}
+func (n *names) action(c engx.Choice, reqs []engx.Req, off int) string {
+	switch c.Kind {
+	case "start":
+		return fmt.Sprintf("AStart %d %s", c.Tid+off, n.request(reqs[c.Tid]))
+	case "resume":
+		return fmt.Sprintf("AResume %d", c.Tid+off)
+	case "persist_ok":
+		return "APersistOk"
+	case "persist_fail":
+		return "APersistFail"
+	}
+	return "ACrash"
+}
+func optNat(s string) string {
+	if s == "" {
+		return "None"
+	}
+	return "(Some " + s + ")"
+}
+
+func coqCase(sc Scenario, ex Exec) string {
+	n := newNames()
+	var setup, reqs, steps, disk, resps, events []string
+	for _, c := range ex.SetupChoices {
+		setup = append(setup, n.action(c, sc.Setup, 0))
+	}
+	for i, r := range sc.Reqs {
+		reqs = append(reqs, fmt.Sprintf("(%d, %s)", 100+i, n.request(r)))
+	}
+	for i, c := range ex.MainChoices {
+		steps = append(steps, fmt.Sprintf("(%s, %d)", n.action(c, sc.Reqs, 100), ex.Counts[i]))
+	}
+	for _, l := range ex.Disk {
+		kind, txid, ps, ref, rev := "KSaveMeta", "None", "[]", 0, "None"
+		switch p := l.Data.(type) {
+		case ledger.NewTransactionLogPayload:
+			kind, txid, ref = "KCreate", "(Some "+p.Transaction.ID.String()+")", idx(n.ref, p.Transaction.Reference)
+			ps = n.ledgerPostings(p.Transaction.Postings)
+		case ledger.RevertedTransactionLogPayload:
+			kind, txid, ref = "KRevert", "(Some "+p.RevertTransaction.ID.String()+")", idx(n.ref, p.RevertTransaction.Reference)
+			ps = n.ledgerPostings(p.RevertTransaction.Postings)
+			rev = "(Some " + p.RevertedTransactionID.String() + ")"
+		case ledger.DeleteMetadataLogPayload:
+			kind = "KDelMeta"
+		}
+		disk = append(disk, fmt.Sprintf("{| oe_id := %s; oe_kind := %s; oe_txid := %s; oe_postings := %s; oe_ref := %d%%N; oe_ik := %d%%N; oe_reverts := %s |}",
+			l.ID.String(), kind, txid, ps, ref, idx(n.ik, l.IdempotencyKey), rev))
+	}
+	for i, r := range ex.Responses {
+		var x string
+		switch {
+		case r.OK:
+			x = "ROk " + optNat(r.TxID)
+		case r.Err == "crashed":
+			x = "RCrashed"
+		default:
+			cls, ok := map[string]string{"ik-busy": "EIkBusy", "conflict": "EConflict", "not-found": "ENotFound", "already-reverted": "EAlreadyReverted",
+				"revert-occurring": "ERevertOccurring", "insufficient": "EInsufficient", "no-postings": "ENoPostings"}[r.Err]
+			if !ok {
+				cls = "EKindMismatch (* " + strings.ReplaceAll(r.Err, "*)", "") + " " + r.Panic + " *)"
+			}
+			x = "RErr " + cls
+		}
+		if r.Err == "" && !r.OK {
+			continue // never started
+		}
+		resps = append(resps, fmt.Sprintf("(%d, %s)", 100+i, x))
+	}
+	for _, p := range ex.Published {
+		kind := map[string]string{"committed": "KCreate", "reverted": "KRevert", "saved_metadata": "KSaveMeta", "deleted_metadata": "KDelMeta"}[p.Kind]
+		tx, rv := "None", "None"
+		if p.Tx != nil {
+			tx = "(Some " + p.Tx.ID.String() + ")"
+		}
+		if p.Reverted != nil {
+			rv = "(Some " + p.Reverted.ID.String() + ")"
+		}
+		events = append(events, fmt.Sprintf("(%d, %s, %s, %s)", 100+p.Tid, kind, tx, rv))
+	}
+	j := func(xs []string) string { return "[" + strings.Join(xs, ";\n      ") + "]" }
+	return fmt.Sprintf("{| ec_setup := %s;\n   ec_reqs := %s;\n   ec_allow_fail := %v; ec_allow_crash := %v; ec_max_crashes := 1;\n   ec_steps := %s;\n   ec_disk := %s;\n   ec_resps := %s;\n   ec_events := %s |}",
+		j(setup), j(reqs), sc.Fail, sc.Crash, j(steps), j(disk), j(resps), j(events))
+}
+
+func (n *names) ledgerPostings(ps ledger.Postings) string {
+	var xs []string
+	for _, p := range ps {
+		xs = append(xs, fmt.Sprintf("(%d%%N, %d%%N, %s%%Z)", idx(n.acc, p.Source), idx(n.acc, p.Destination), p.Amount.String()))
+	}
+	return "[" + strings.Join(xs, "; ") + "]"
 }
 
 func main() {
 	r := vx.Start("C02", "engine")
+	r.Cases("From FL Require Import Engine.Corr.\nClose Scope Z_scope.\nOpen Scope nat_scope.\n", "ecase", 120)
 	r.Sum.Rule = "scenarios of concurrent writes on the real Commander (real locker, batcher, referencer, compiler, machine) over a log-fold store; each scenario is explored over its interleavings at the verifhook yield points (exhaustive up to the budget, then seeded random), with crash / store-failure injection where enabled; non-trivial = an execution in which at least two requests overlapped (a request started before another finished); distinct by the choice sequence"
 	var scs []Scenario
 	docs, replayOnly := r.Inputs()
@@ -482,6 +637,10 @@ func main() {
 		prefix := []int{}
 		n, faults := 0, 0
 		exhaustive := false
+		validated, validateMax := 0, 40
+		if r.Thorough() {
+			validateMax = 400
+		}
 		g := vx.NewRng(r.Seed + uint64(len(sc.Name)))
 		explore := func(prefix []int) Exec {
 			ex := run(sc, prefix, false)
@@ -506,7 +665,12 @@ func main() {
 				js, _ := json.Marshal(ex.Responses)
 				fmt.Fprintln(os.Stderr, "EXEC", ex.Choices, string(js), len(ex.Disk))
 			}
-			r.Case("", map[string]any{"scenario": sc.Name, "choices": ex.Choices}, fmt.Sprint(sc.Name, ex.Schedule), overlapped(ex))
+			coq := ""
+			if validated < validateMax {
+				coq = coqCase(sc, ex)
+				validated++
+			}
+			r.Case(coq, map[string]any{"scenario": sc, "schedule": ex.Schedule, "choices": ex.Choices}, fmt.Sprint(sc.Name, ex.Schedule), overlapped(ex))
 			return ex
 		}
 		// depth-first over the observed branching factors (stateless search by re-execution)
